@@ -241,10 +241,11 @@ theorem sortByName_sorted {α : Type} (on : Bool) (nm : α → Text) (xs : List 
     (if on then sortByName nm xs else xs) = sorted on nm xs := by
   cases on <;> rfl
 
-/-- the field is written: no introspection field, and in a federation export not one of the
-    federation machinery's fields -/
+/-- the field is written: no introspection field (the repaired exporter leaves the federation
+    machinery's fields out of the query root only, before it comes to the fields: `fedRoot`) -/
 def FieldShown (o : Opts) (f : FieldDef) : Prop :=
-  (startsWith2Underscores f.name || (o.federation && (f.name = s "_service" || f.name = s "_entities"))) = false
+  (startsWith2Underscores f.name ||
+    (Defects.none.fedFieldsEverywhere && o.federation && (f.name = s "_service" || f.name = s "_entities"))) = false
 
 theorem Lx_field (o : Opts) (f : FieldDef) (hf : SkelField f)
     (hnd : FieldShown o f) (rest : Text) (ts : List Tok) (h : Lx rest ts) :
